@@ -439,19 +439,22 @@ class Connection(object):
     def _unit(addr, n):
         return 2 if addr % 4 == 0 and n % 4 == 0 else 1 if addr % 2 == 0 and n % 2 == 0 else 0
 
+    # read / write: the REAL SCPConnection.read / .write split the transfer into commands (so the code that the controllers
+    # really run decides block sizes, addresses and access units); only the transport below them - send_scp_burst - is
+    # replaced by a direct call of the model, one command at a time, each answered once
+    def send_scp_burst(self, buffer_size, window_size, parameters_and_callbacks):
+        for a in parameters_and_callbacks:
+            r = self.model.scp(a.x, a.y, a.p, a.cmd, a.arg1, a.arg2, a.arg3, a.data, 0, a.timeout)
+            if a.callback is not None:
+                a.callback(b"\0" * 14 + bytes(r.data))      # (2 padding + 8 SDP header + cmd_rc + seq, then the data)
+
     def read(self, buffer_size, window_size, x, y, p, address, length_bytes):
-        out = bytearray()
-        while len(out) < length_bytes:
-            n = min(buffer_size, length_bytes - len(out))
-            out += self.model.scp(x, y, p, CMD_READ, address + len(out), n, self._unit(address + len(out), n)).data
-        return bytes(out)
+        from rig.machine_control.scp_connection import SCPConnection as _Real
+        return _Real.read(self, buffer_size, window_size, x, y, p, address, length_bytes)
 
     def write(self, buffer_size, window_size, x, y, p, address, data):
-        data, pos = bytes(data), 0
-        while pos < len(data):
-            blk = data[pos:pos + buffer_size]
-            self.model.scp(x, y, p, CMD_WRITE, address + pos, len(blk), self._unit(address + pos, len(blk)), blk)
-            pos += len(blk)
+        from rig.machine_control.scp_connection import SCPConnection as _Real
+        return _Real.write(self, buffer_size, window_size, x, y, p, address, data)
 
     def close(self):
         pass
